@@ -55,6 +55,19 @@ def gen_plan(rng, corpus_files=None) -> dict:
         # documents the repository's own tests build (harvested from the suite before the batch)
         for _ in range(rng.choice([1, 1, 2])):
             recs.append(_corpus_recipe(rng.choice(corpus_files)))
+    # permuted twins: the same document with the table's columns in another physical order (same names, same
+    # shape, same component specs) - anything keyed on names but applied by position, or vice versa, shows
+    if rng.random() < 0.3:
+        cands = [r for r in recs if r["kind"] in ("single", "multi") and any(len(f["cols"]) >= 3 for f in r["dfs"])]
+        if cands:
+            tw = json_copy(rng.choice(cands))
+            for f in tw["dfs"]:
+                if len(f["cols"]) >= 3:
+                    order = list(range(len(f["cols"])))
+                    rng.shuffle(order)
+                    f["cols"] = [f["cols"][i] for i in order]
+            tw.pop("calib", None)
+            recs.append(tw)
     # equal-valued documents built twice are the sharpest probe for sharing
     if rng.random() < 0.35:
         recs.append(json_copy(rng.choice(recs)))
@@ -268,7 +281,7 @@ def exec_history(arg) -> dict:
         for ctype, attr in (("body", "rtf_body"), ("header", "rtf_column_header"), ("page", "rtf_page"),
                             ("title", "rtf_title"), ("subline", "rtf_subline"), ("page_header", "rtf_page_header"),
                             ("page_footer", "rtf_page_footer"), ("footnote", "rtf_footnote"),
-                            ("source", "rtf_source")):
+                            ("source", "rtf_source"), ("figure", "rtf_figure")):
             try:
                 out[ctype] = state.component_dump(getattr(doc, attr, None))
             except Exception:  # noqa: BLE001 - targeting signal only
